@@ -130,6 +130,9 @@ def parseObs (line : String) : Obs :=
        | [a, l, d] => some (intD a, intD l, intD d)
        | _ => none)
   | ["ce", t] => .ce t
+  | ["cst", f, p, o] =>
+    let lst (t : String) (n : Nat) : List String := let b := (t.drop n).toString; if b == "-" then [] else b.splitOn ","
+    .cst (lst f 4) (lst p 6) (lst o 4)
   | ["r", "load", _, "!fail"] => .loadFail
   | "crash" :: _ => .crash line
   | "sanitizer" :: _ => .crash line
@@ -256,6 +259,9 @@ def modelLine (st : MState) (line : String) : MState :=
     match st.world.tab? p with
     | some t => { st with out := renderDecLine p t :: st.out }           -- MODEL decoder on the real tables
     | none => { st with out := s!"dec {p} !notab" :: st.out }
+  | "cst" :: _ =>
+    -- what call_stack() returned in the frame that fails next: predicted from the control stack of that error
+    { st with out := "\x01cst" :: st.out }
   | "cs" :: ts =>
     { st with machine := some (parseCs ts), out := line :: st.out,
               counts := ts.filterMap fun t => if t.contains '=' then none else parseCsCounts t,
@@ -276,7 +282,12 @@ def modelLine (st : MState) (line : String) : MState :=
   | "ce" :: _ => { st with out := line :: st.out }
   | "eh" :: _ =>
     match st.machine with
-    | some (m, caught, err) => { st with out := renderEh caught err (errInfo st.world m) :: st.out }
+    | some (m, caught, err) =>
+      -- a pending call_stack() observation of this failing frame: predicted now that the function tables are known
+      let join (xs : List String) : String := if xs.isEmpty then "-" else ",".intercalate xs
+      let pred := s!"cst fns={join (callStackFns st.world m)} progs={join (callStackProgs m)} obs={join ((callStackObs m).map fun o => if o == "-" then "0" else "/" ++ o)}"
+      let out := st.out.map fun l => if l == "\x01cst" then pred else l
+      { st with out := renderEh caught err (errInfo st.world m) :: out }
     | none => { st with out := "eh !nocs" :: st.out }
   | "r" :: _ => { st with out := line :: st.out }
   | "dump" :: _ => { st with out := line :: st.out }
